@@ -1213,7 +1213,7 @@ impl ObjectFile {
 
         for (addr, block) in b_block_map {
             if a_obj.block_map.insert(addr, block).is_some() {
-                return Err(AsmErr::new(AsmErrKind::OverlappingBlocks, []));
+                return Err(AsmErr::new(AsmErrKind::OverlappingBlocks, 0..0));
             }
         }
 
@@ -1226,7 +1226,7 @@ impl ObjectFile {
             let br = u32::from(b_st) .. (u32::from(b_st) + b_bl.len() as u32);
             ranges_overlap(ar, br)
         }) {
-            return Err(AsmErr::new(AsmErrKind::OverlappingBlocks, []));
+            return Err(AsmErr::new(AsmErrKind::OverlappingBlocks, 0..0));
         }
 
         // Merge symbol tables:
